@@ -316,25 +316,34 @@ fn probe_chain(target: &str, chain: &[String]) -> Value {
 }
 
 // ------------------------------------------------------------------ ZST cache grid
+pub trait Marker {
+    fn which(&self) -> u8;
+}
+
 macro_rules! zst_types {
-    ($($name:ident / $nz:ident = $a:literal),*) => {
+    ($($name:ident / $nameb:ident / $nz:ident = $a:literal),*) => {
         $(
             #[repr(align($a))]
             struct $name;
             #[repr(align($a))]
+            struct $nameb;
+            impl Marker for $name { fn which(&self) -> u8 { 1 } }
+            impl Marker for $nameb { fn which(&self) -> u8 { 2 } }
+            #[repr(align($a))]
             #[allow(dead_code)]
             struct $nz(u8);
+            impl Marker for $nz { fn which(&self) -> u8 { 1 } }
         )*
         fn probe_zst_point(align: usize, max: usize, zst: bool) -> Option<Value> {
             $(
                 if align == $a {
                     return Some(match (max, zst) {
-                        (1, true) => zst_one::<$name, 1>(|| $name, $a),
-                        (8, true) => zst_one::<$name, 8>(|| $name, $a),
-                        (16, true) => zst_one::<$name, 16>(|| $name, $a),
-                        (1, false) => zst_one::<$nz, 1>(|| $nz(1), $a),
-                        (8, false) => zst_one::<$nz, 8>(|| $nz(1), $a),
-                        (16, false) => zst_one::<$nz, 16>(|| $nz(1), $a),
+                        (1, true) => zst_one::<$name, $nameb, 1>(|| $name, || $nameb, $a),
+                        (8, true) => zst_one::<$name, $nameb, 8>(|| $name, || $nameb, $a),
+                        (16, true) => zst_one::<$name, $nameb, 16>(|| $name, || $nameb, $a),
+                        (1, false) => zst_one::<$nz, $nz, 1>(|| $nz(1), || $nz(2), $a),
+                        (8, false) => zst_one::<$nz, $nz, 8>(|| $nz(1), || $nz(2), $a),
+                        (16, false) => zst_one::<$nz, $nz, 16>(|| $nz(1), || $nz(2), $a),
                         _ => return None,
                     });
                 }
@@ -343,9 +352,9 @@ macro_rules! zst_types {
         }
     };
 }
-zst_types!(Z1 / N1 = 1, Z2 / N2 = 2, Z4 / N4 = 4, Z8 / N8 = 8, Z16 / N16 = 16, Z32 / N32 = 32, Z64 / N64 = 64);
+zst_types!(Z1 / Y1 / N1 = 1, Z2 / Y2 / N2 = 2, Z4 / Y4 / N4 = 4, Z8 / Y8 / N8 = 8, Z16 / Y16 / N16 = 16, Z32 / Y32 / N32 = 32, Z64 / Y64 / N64 = 64);
 
-fn zst_one<T: 'static, const MAX: usize>(make: impl Fn() -> T, align: usize) -> Value
+fn zst_one<T: Marker + 'static, U: Marker + 'static, const MAX: usize>(make: impl Fn() -> T, make_b: impl Fn() -> U, align: usize) -> Value
 where
     gc_arena::zst_cache::Alignment<MAX>: gc_arena::zst_cache::ValidAlignment,
 {
@@ -355,7 +364,15 @@ where
         let a = cache.alloc_static(mc, make());
         let b = cache.alloc_static(mc, make());
         let pa = Gc::as_ptr(a) as usize;
+        // two pointers of ONE static type (Gc<dyn Marker>) to the same allocation with DIFFERENT metadata:
+        // a second zero-sized type from the same cache, both unsized to the same trait object type
+        let c = cache.alloc_static(mc, make_b());
+        let da: Gc<'_, dyn Marker> = unsize!(a => dyn Marker);
+        let dc: Gc<'_, dyn Marker> = unsize!(c => dyn Marker);
+        let same_alloc = Gc::ptr_eq(Gc::erase(a), Gc::erase(c));
         out = json!({
+            "dyn_ptr_eq": Gc::ptr_eq(da, dc), "dyn_weak_ptr_eq": GcWeak::ptr_eq(Gc::downgrade(da), Gc::downgrade(dc)),
+            "dyn_same_alloc": same_alloc, "dyn_values": [da.which(), dc.which()],
             "cached": cache.is_cached(a), "cached_again": cache.is_cached(b),
             "shared": Gc::ptr_eq(Gc::erase(a), Gc::erase(b)),
             "is_cache_ptr": Gc::ptr_eq(Gc::erase(a), cache.cached_ptr()),
